@@ -45,6 +45,8 @@ pub struct SourceSpec {
     pub eintr: Vec<u32>,
     #[serde(default)]
     pub faults: Vec<Fault>,
+    /// Wrapper stack, innermost first: layers[0] wraps the base, the last layer is the one the
+    /// decoder talks to (e.g. [Mem(L), Depth(D)] = decode_with_depth_limit(D, &mut MemTrackingInput::new(base, L))).
     #[serde(default)]
     pub layers: Vec<Layer>,
 }
